@@ -17,7 +17,7 @@ RULE = ('Cases: one input set per case and command; the command is run once with
         'times with thread counts from {1,2,3,4,6,8,16,32}, each process drawing fresh hash seeds, some with seeded jitter at the '
         'hook points (start of parallel work items, before locks), some pinned to one CPU with taskset.  Every run must succeed '
         'if the single-threaded one did and give: byte-identical output for map (aln, vcf), distance and lo with a reference (snps '
-        'fasta, snps vcf, pseudo-genomes, indel vcf); an identical table for build (from sequence files, and from 2..40 paired read samples with --min-count 2..3); an identical column multiset for align; a '
+        'fasta, snps vcf, pseudo-genomes, indel vcf); an identical table for build (from sequence files, and from 2..40 paired read samples with --min-count 2..3, and with --min-count auto); an identical column multiset for align; a '
         'column multiset up to order and whole-column complement for reference-free lo (+ identical indel record set).  Where an '
         'absolute oracle exists (model table for build, C04 model for map, C14 model for distance, planted truth for lo) the '
         'single-threaded result is also judged, so "all runs equally wrong" is not a pass.  Sample counts '
@@ -28,9 +28,9 @@ RULE = ('Cases: one input set per case and command; the command is run once with
         'item; distinct = distinct (command, inputs).')
 ASSUMPTIONS = ['schedules are perturbed (thread counts, jitter, pinning, sanitizer slow-down), not enumerated',
                'the permitted freedom per command is the one stated in the property']
-CMDS = ['build', 'build-reads', 'align-fasta', 'align-skf', 'map-fasta', 'map-skf', 'distance', 'lo-ref', 'lo-free', 'lo-ref-clustered', 'lo-free-clustered']
+CMDS = ['build', 'build-reads', 'build-auto', 'align-fasta', 'align-skf', 'map-fasta', 'map-skf', 'distance', 'lo-ref', 'lo-free', 'lo-ref-clustered', 'lo-free-clustered']
 REQUIRED = {t: ['cmd:' + c for c in CMDS] + ['runs_compared', 'jitter_runs', 'pinned_runs', 'threads_above_cores',
-                                            'parallel_build_split_used', 'tsan_runs'] for t in ('quick', 'thorough')}
+                                            'parallel_build_split_used', 'tsan_runs', 'builds_with_a_file_given_twice'] for t in ('quick', 'thorough')}
 SAMPLE_COUNTS = [1, 2, 9, 10, 19, 20, 21, 39, 40, 45, 70, 79, 80, 150, 165]     # 70/150: third/fourth level of the recursive split
 THREADS = [1, 2, 3, 4, 6, 8, 16, 32]
 
@@ -42,7 +42,7 @@ def builds(tier):
 def plan(tier, seed, rng, scale):
     descs = []
     for cmd in CMDS:
-        reps = {'build': 15, 'build-reads': 3, 'align-fasta': 4, 'align-skf': 3, 'map-fasta': 6, 'map-skf': 4, 'distance': 5}.get(cmd, 6)
+        reps = {'build': 15, 'build-reads': 3, 'build-auto': 2, 'align-fasta': 4, 'align-skf': 3, 'map-fasta': 6, 'map-skf': 4, 'distance': 5}.get(cmd, 6)
         reps = int(reps * (4 if tier == 'quick' else 40) * scale) or 1
         for i in range(reps):
             d = {'cmd': cmd, 'seed': rng.getrandbits(32), 'nruns': 5 if tier == 'quick' else 9}
@@ -124,7 +124,17 @@ def run_case(desc, ctx):
     outputs = []          # files (relative to a run directory) that make up the result
 
     # ------------------------------------------------------------------ inputs
-    if cmd == 'build-reads':
+    if cmd == 'build-auto':
+        # --min-count auto fits its coverage model before the build starts: that step must not get in the way of --threads
+        from . import c20
+        k = rng.choice([21, 31, 33])
+        rd, _params = c20.sim_reads(rng)
+        txt = ''.join('@r%d\n%s\n+\n%s\n' % (x, t_, 'I' * len(t_)) for x, t_ in enumerate(rd[0] + rd[1]))
+        for nm in ('a0', 'a1', 'b0', 'b1'):
+            ctx.write(nm + '.fastq', txt)
+        ctx.write('auto.list', 'A\t%s\t%s\nB\t%s\t%s\n' % tuple(ctx.path(nm + '.fastq') for nm in ('a0', 'a1', 'b0', 'b1')))
+        detail['k'] = k
+    elif cmd == 'build-reads':
         # paired read files per sample, counted with --min-count 2..3: every sample's filter state is its own
         ns = desc.get('ns') or 12
         anc, samples = gen_population(rng, ns, k, glen=rng.randint(5 * k, 9 * k))
@@ -155,6 +165,12 @@ def run_case(desc, ctx):
         ns = desc.get('ns') or rng.randint(2, 45)
         anc, samples = gen_population(rng, ns, k)
         files = [G.write_fa(ctx.path('s%d.fa' % i), recs) for i, recs in enumerate(samples)]
+        exp_names = ['s%d' % i for i in range(ns)]
+        if cmd == 'build' and ns >= 20 and desc['seed'] % 3 == 0:
+            # the same file given twice, far apart in the argument list (two samples of one name, on either side of a split)
+            i_, j_ = rng.randrange(0, ns // 3), rng.randrange(2 * ns // 3, ns)
+            files[j_], samples[j_], exp_names[j_] = files[i_], samples[i_], exp_names[i_]
+            res.count('builds_with_a_file_given_twice')
         detail['ns'] = ns
         ctx.write('ref.fa', '>chr1\n%s\n>chr2\n%s\n' % (anc[:len(anc) // 2], anc[len(anc) // 2:]))
         if cmd in ('align-skf', 'map-skf', 'distance'):
@@ -194,6 +210,8 @@ def run_case(desc, ctx):
             args = ['build', '-k', k, '-o', os.path.join(d, 'o'), *files, *th]
         elif cmd == 'build-reads':
             args = ['build', '-k', k, '-o', os.path.join(d, 'o'), '-f', ctx.path('reads.list'), '--min-count', minc, *th]
+        elif cmd == 'build-auto':
+            args = ['build', '-k', k, '-o', os.path.join(d, 'o'), '-f', ctx.path('auto.list'), '--min-count', 'auto', *th]
         elif cmd == 'align-fasta':
             args = ['align', *files, '-o', os.path.join(d, 'aln.fa'), '--min-freq', '0.5', *th]
         elif cmd == 'align-skf':
@@ -221,7 +239,7 @@ def run_case(desc, ctx):
             result['tsan'] = reports
         # comparable form of the result
         if p.returncode == 0:
-            if cmd in ('build', 'build-reads'):
+            if cmd in ('build', 'build-reads', 'build-auto'):
                 hdr, T = G.nk(ctx, os.path.join(d, 'o.skf'))
                 result['val'] = (hdr.get('names'), T, hdr.get('k'), hdr.get('rc'))
             elif cmd.startswith('align'):
@@ -253,7 +271,7 @@ def run_case(desc, ctx):
     base = invoke(1, None, False, 'base')
     res.evals += 1
     if base['rc'] != 0:
-        if cmd.startswith('lo') and cmd.endswith('clustered'):
+        if (cmd.startswith('lo') and cmd.endswith('clustered')) or cmd == 'build-auto':
             res.count('baseline_no_result')       # e.g. no variant found: nothing to compare
             return res
         res.violate('C11:%s:baseline-failed' % cmd, '%s fails single-threaded: %s' % (cmd, base['stderr']), detail)
@@ -261,7 +279,7 @@ def run_case(desc, ctx):
     # ---- absolute oracles on the single-threaded result
     if cmd == 'build':
         names, T, _k, _rc = base['val']
-        if T != M.table_of(samples, k, True) or names != ['s%d' % i for i in range(len(samples))]:
+        if T != M.table_of(samples, k, True) or names != exp_names:
             res.violate('C11:build:absolute', 'single-threaded build differs from the model table', detail)
             return res
     elif cmd == 'distance':
@@ -354,7 +372,7 @@ def describe_diff(a, b):
 def finalize(tier, counters, sets):
     inconcl = []
     for cmd in CMDS:
-        if counters.get('cmd:' + cmd) and counters.get('distinct_schedules:' + cmd, 0) <= counters.get('cmd:' + cmd, 0) and cmd != 'align-skf':
+        if counters.get('cmd:' + cmd) and counters.get('distinct_schedules:' + cmd, 0) <= counters.get('cmd:' + cmd, 0) and cmd not in ('align-skf', 'build-auto'):
             # every input set showed a single schedule: the schedule quantifier was not exercised for this command
             inconcl.append('only one schedule observed per input for ' + cmd)
     return [], inconcl
